@@ -240,7 +240,7 @@ Definition phase_prefix (cfg : config) (env : opt_env) (sw : switch_rec) (active
   match t with
   | None => Ret None
   | Some target =>
-      if negb (mem_host target (ov_cluster env)) then Panic 40224 else
+      if negb (mem_host target (ov_cluster env)) then Ret None else      (* not a registered host: an error, nothing to wait for *)
       e <- opt_enable target ;;
       match e with Some _ => Ret None | None => Ret (Some target) end
   end.
